@@ -134,6 +134,7 @@ func mergeRuns(dst, src *HarnessRun) {
 	dst.Decisions += src.Decisions
 	dst.UnknownBranches += src.UnknownBranches
 	dst.IfConverted += src.IfConverted
+	dst.AllocCuts += src.AllocCuts
 	dst.Violations = append(dst.Violations, src.Violations...)
 	for k, v := range src.ViolCount {
 		dst.ViolCount[k] += v
